@@ -220,7 +220,9 @@ func (o *Operator) HandleDeploy(ctx context.Context, req *workerpb.DeployOperato
 	o.sourceRunners = newUpstreams(req.SourceRunnerIds)
 	o.sink = sink
 
-	// A checkpoint that was being aligned belongs to the previous deployment.
+	// A checkpoint that was being aligned belongs to the previous deployment;
+	// senders still waiting on it are turned away.
+	o.checkpoint.abandon()
 	o.checkpoint = nil
 
 	if err := o.status.DidLoad(); err != nil {
@@ -252,7 +254,9 @@ func (o *Operator) HandleEvent(ctx context.Context, senderID string, req *worker
 	o.mu.RLock()
 	waitOnAlignment := o.checkpoint.alignSender(senderID)
 	o.mu.RUnlock()
-	waitOnAlignment()
+	if err := waitOnAlignment(); err != nil {
+		return connect.NewError(connect.CodeAborted, err)
+	}
 	verifhook.At("operator.aligned", senderID)
 
 	// Collect the err response from the queued event.
